@@ -35,7 +35,7 @@ theorem dihedral_arccos (n1 n2 : V3 ℝ) :
   unfold CP.dihedralAngle
   have h : V3.dot (-n1) n2 = -(V3.dot n1 n2) := by
     simp only [V3.dot, V3.neg_x, V3.neg_y, V3.neg_z]; ring
-  rw [h, Scalar.acos_real, Real.arccos_neg]
+  rw [h, Scalar.acos_real, arccos_clip, Real.arccos_neg]
 
 /-- **get_dihedral = π − ∠(n₁, n₂)** for unit normals (what `_equations[:, :3]` holds). -/
 theorem dihedral_def (n1 n2 : V3 ℝ) (h1 : V3.norm n1 = 1) (h2 : V3.norm n2 = 1) :
